@@ -601,12 +601,31 @@ int main(int argc, char** argv)
     for (int i = 0; i < 8; ++i) shim::rnd();
     size_t maxcap = uq->_max_capacity;
     int ppc = 0, cpc = 0;
-    bool dirty = false;
+    bool dirty = false, quiescent = false, saw_null = false;
     for (long k = 0; k < steps; ++k)
     {
+      if (quiescent && ppc == 0 && cpc == 0 && shim::rnd() % 3 == 0)
+      {
+        // C09: everything committed has been consumed, the consumer observed the queue empty and committed its reads (idle
+        // backend). Whatever the producer does next - even after a shrink, before the consumer looks again - a record
+        // that fits the maximum capacity must be accepted.
+        if (shim::rnd() % 2 == 0)
+        {
+          size_t pc = uq->producer_capacity();
+          exec({"P", "shrink", "c=" + std::to_string(std::max<size_t>(1, pc >> (1 + shim::rnd() % 2)))});
+        }
+        size_t n = 1 + static_cast<size_t>(shim::rnd() % maxcap);
+        if (shim::rnd() % 3 == 0) n = maxcap;
+        if (n > 65000) n = 65000;
+        exec({"P", "upw", "n=" + std::to_string(n), "probe=1"});
+        quiescent = false;
+        if (last_granted) ppc = 1;
+        continue;
+      }
       bool doP = shim::rnd() % 2 == 0;
       if (doP)
       {
+        quiescent = false;
         if (ppc == 0)
         {
           unsigned long long r = shim::rnd() % 20;
@@ -629,9 +648,16 @@ int main(int argc, char** argv)
       {
         if (cpc == 0)
         {
-          if (dirty && shim::rnd() % 3 == 0) { exec({"C", "ucr"}); dirty = false; }
+          if (dirty && shim::rnd() % 3 == 0)
+          {
+            exec({"C", "ucr"});
+            dirty = false;
+            bool drained = true;
+            for (auto& r : g_recs) if (r.committed && !r.consumed) drained = false;
+            quiescent = drained && ppc == 0 && saw_null && uq->empty();
+          }
           else if (shim::rnd() % 10 == 0) { exec({"C", "uempty"}); }   // what the backend's emptiness decisions rely on (up-to-date loads)
-          else { exec({"C", "upr", "ld=-1,-1,-1,0,-1"}); if (last_got) cpc = 1; }
+          else { exec({"C", "upr", "ld=-1,-1,-1,0,-1"}); if (last_got) { cpc = 1; saw_null = false; } else saw_null = true; }
         }
         else if (cpc == 1) { exec({"C", "read"}); cpc = 2; }
         else { exec({"C", "ufr"}); cpc = 0; dirty = true; }
